@@ -292,3 +292,68 @@ func cmdReplay(args []string) {
 	}
 	fmt.Println("no concrete input: " + rf.ReplayNote)
 }
+
+// callerObligations: `only_called_by` clauses. For every contract of the property that carries one, every static call
+// of the function from its own package must come from one of the named functions (closures count as their enclosing
+// function).
+func (P *Program) callerObligations(prop string) []closureRes {
+	var out []closureRes
+	var paths []string
+	for p := range P.specs {
+		paths = append(paths, p)
+	}
+	sort.Strings(paths)
+	for _, path := range paths {
+		ps := P.specs[path]
+		for _, cname := range ps.Order {
+			con := ps.Contracts[cname]
+			if con == nil || len(con.OnlyCalledBy) == 0 || !hasProp(con.Props, prop) {
+				continue
+			}
+			target := P.funcs[path+"::"+cname]
+			if target == nil {
+				continue
+			}
+			allowed := map[string]bool{}
+			for _, a := range con.OnlyCalledBy {
+				allowed[a] = true
+			}
+			var offenders []string
+			var keys []string
+			for k := range P.funcs {
+				if strings.HasPrefix(k, path+"::") {
+					keys = append(keys, k)
+				}
+			}
+			sort.Strings(keys)
+			for _, k := range keys {
+				fn := P.funcs[k]
+				name := strings.TrimPrefix(k, path+"::")
+				outer := name
+				if i := strings.Index(outer, "$"); i > 0 {
+					outer = outer[:i]
+				}
+				if fn == target || allowed[outer] || allowed[name] {
+					continue
+				}
+				calls := false
+				for _, b := range fn.Blocks {
+					for _, in := range b.Instrs {
+						if ci, ok := in.(ssa.CallInstruction); ok && ci.Common().StaticCallee() == target {
+							calls = true
+						}
+					}
+				}
+				if calls {
+					offenders = append(offenders, name)
+				}
+			}
+			r := closureRes{name: "callers:" + cname, ok: len(offenders) == 0}
+			if !r.ok {
+				r.detail = fmt.Sprintf("%s is called by %s; the contract allows only %s", cname, strings.Join(offenders, ", "), strings.Join(con.OnlyCalledBy, ", "))
+			}
+			out = append(out, r)
+		}
+	}
+	return out
+}
